@@ -126,4 +126,12 @@ def generate():
     items.append(str_list_def("stmts_shared_release", statements(function_body(cpp, r"SharedMonotonicBufferResource::release\s*\("))))
     items.append(str_list_def("stmts_swiss_release", statements(function_body(cpp, r"SwissMemoryResource::release\s*\("))))
     items.append(str_list_def("stmts_shared_do_allocate", statements(function_body(cpp, r"SharedMonotonicBufferResource::do_allocate\s*\("))))
+    # the library's own base page allocator: page size normalisation and the alignment it asks operator new for
+    pcpp = resolve_ifs("babylon/reusable/page_allocator.cpp")
+    nd = r"NewDeletePageAllocator::"
+    for f in ["set_page_size", "allocate", "deallocate"]:
+        items.append(str_list_def("stmts_newdelete_" + f, statements(function_body(pcpp, nd + f + r"\s*\("))))
+    items.append(str_list_def("stmts_system_allocate", statements(function_body(pcpp, r"SystemPageAllocator::allocate\s*\("))))
+    m = re.search(r"operator new\s*\(\s*_page_size\s*,\s*(.*?)\)\s*;", strip_comments(function_body(pcpp, nd + r"allocate\s*\(")), re.S)
+    items.append('def newDeletePageAlignArg : String := "%s"' % (_norm(m.group(1)) if m else "?"))
     emit("Arena", items, opens=(), imports=())
